@@ -120,6 +120,48 @@ class Refresh(Harness):
         return AND(ok, len(calls) <= 1)
 
 
+class FileTimestamp(Harness):
+    """the timestamp the expiry rules see for a file tile is the time the tile itself was last
+    written -- for a linked single-colour tile the mtime of the link, not of the shared file"""
+    modules = ['mapproxy.cache.path', 'mapproxy.cache.file']
+    functions = ['FileCache.load_tile_metadata', 'FileCache.load_tile']
+
+    @classmethod
+    def build(cls, L, cfg):
+        from props.fsmodel import RecOs
+        f = L.mods['mapproxy.cache.file']
+        ros = RecOs(fixed={'exists': True})
+        f.__dict__['os'] = ros
+        f.__dict__['ImageSource'] = lambda loc, image_opts=None: ('image', loc)
+        cache = f.FileCache.__new__(f.FileCache)
+        cache.cache_dir = '/cache'
+        cache.file_ext = 'png'
+        cache.image_opts = None
+        cache.directory_permissions = None
+        cache._tile_location, cache._level_location = L.mods['mapproxy.cache.path'].location_funcs(cfg.get('layout', 'tc'))
+        return dict(f=f, cache=cache, os=ros)
+
+    @classmethod
+    def inputs(cls, ctx, cfg):
+        a, b = real_var('mtime_link'), real_var('mtime_shared_file')
+        assume(AND(a >= 0, b >= 0))
+        return dict(mtime_link=a, mtime_target=b, size=int_var('size'))
+
+    @classmethod
+    def prop(cls, ctx, cfg, mtime_link, mtime_target, size):
+        from props.C05_cachemap import FakeTile
+        cache, ros = ctx['cache'], ctx['os']
+        ros.reset([])
+        ros.stat_values = (mtime_link, size)
+        ros.target_stat_values = (mtime_target, size)
+        t = FakeTile((1, 2, 3))
+        if cfg.get('via') == 'load_tile':
+            cache.load_tile(t, with_metadata=True)
+        else:
+            cache.load_tile_metadata(t)
+        return AND(t.timestamp == mtime_link, t.size == size)
+
+
 class FakeDT(object):
     def __init__(self, t):
         self.t = t
@@ -218,6 +260,8 @@ CANARIES = [
     ('expiry ignored when the tile is present', 'Refresh', {'mapproxy.cache.tile': [(
         "        if cached and max_mtime is not None:", "        if not cached and max_mtime is not None:")]},
      dict(meta=False, with_threshold=True)),
+    ('file tile timestamp follows symbolic links', 'FileTimestamp', {'mapproxy.cache.file': [(
+        "            stats = os.lstat(location)", "            stats = os.stat(location)")]}, dict(via='load_tile')),
     ('relative threshold computed once', 'RelativeThreshold', {'mapproxy.cache.tile': [(
         "            return before_timestamp_from_options(self._refresh_before)",
         "            if self._expire_timestamp is None:\n                self._expire_timestamp = before_timestamp_from_options(self._refresh_before)\n            return self._expire_timestamp")]},
@@ -236,9 +280,11 @@ def obligations(tier, seed):
     deltas = [{'hours': 4}, {'days': 1, 'minutes': 2}, {'weeks': 2}, {'seconds': 30}]
     for d in (deltas if tier == 'thorough' else deltas[:2]):
         specs.append(spec(MOD, 'RelativeThreshold', 'relative-threshold/%s' % '-'.join('%s%s' % kv for kv in d.items()), cfg=dict(delta=d)))
+    for via in ('load_tile_metadata', 'load_tile'):
+        specs.append(spec(MOD, 'FileTimestamp', 'file-tile-timestamp/%s' % via, cfg=dict(via=via)))
     specs.append(spec(MOD, 'Refresh', 'twin/Refresh', kind='witness', cfg=dict(meta=False, with_threshold=True)))
     specs.append(spec(MOD, 'RelativeThreshold', 'twin/RelativeThreshold', kind='witness', cfg=dict(delta={'hours': 4})))
-    for label, h, patches, c in (CANARIES if tier == 'thorough' else CANARIES[:3] + CANARIES[4:]):
+    for label, h, patches, c in (CANARIES if tier == 'thorough' else CANARIES[:3] + CANARIES[4:]):   # (quick skips one)
         specs.append(spec(MOD, h, 'canary/' + label, kind='canary', cfg=c, patches=patches, cost=5))
     return specs
 
@@ -253,7 +299,7 @@ META = dict(
                 'a failing refresh stores/removes nothing and serves the old tile; for a 2x2 meta tile: all fresh => no '
                 'request, any expired => exactly one request storing all four tiles; relative thresholds are re-evaluated '
                 'against the clock on every call (threshold = floor(now - delta)).',
-    functions=Refresh.functions + RelativeThreshold.functions,
+    functions=Refresh.functions + RelativeThreshold.functions + FileTimestamp.functions,
     bounds='timestamps >= 0, thresholds whole seconds >= 0; single tile and one 2x2 meta tile; one request; clock: two arbitrary '
            'non-decreasing instants',
     outside='the sub-second band ts in (T, T+1) (documented truncation, either behaviour accepted), mktime/strptime (C library; '
